@@ -54,6 +54,10 @@ type TxnHist struct {
 	Buf      map[string]*string
 	Inserted map[string]bool
 	Locked   map[string]uint64 // key -> for-update ts of the successful lock
+	// InsertChecked: the insert's existence check is part of the protocol for this key: always
+	// for optimistic transactions; for pessimistic ones only when a LockKeys call succeeded on the
+	// key while the buffer entry carried the presume-not-exists flag (the check travels with the lock request).
+	InsertChecked map[string]bool
 	Done     bool
 }
 
@@ -72,7 +76,22 @@ type World struct {
 	allKeys [][]byte
 }
 
-type quietBackend struct{ simkit.Backend }
+// mockFront sits in front of the repository's mock server. The mock panics
+// ("KvScan: startKey not in region") on a reverse scan of the empty range
+// [k, k) when k is the end key of the addressed region, a request the client
+// legitimately emits after a full batch ended exactly on its lower bound and
+// that TiKV answers with no pairs. That one request shape is answered here.
+type mockFront struct{ simkit.Backend }
+
+func (m mockFront) SendRequest(ctx context.Context, addr string, req *tikvrpc.Request, timeout time.Duration) (*tikvrpc.Response, error) {
+	if req.Type == tikvrpc.CmdScan {
+		r := req.Scan()
+		if r.Reverse && len(r.StartKey) > 0 && bytes.Equal(r.StartKey, r.EndKey) {
+			return &tikvrpc.Response{Resp: &kvrpcpb.ScanResponse{}}, nil
+		}
+	}
+	return m.Backend.SendRequest(ctx, addr, req, timeout)
+}
 
 var fpOnce sync.Once
 
@@ -105,13 +124,14 @@ func newWorld(s *simkit.Sim, sc *Scenario) (*World, error) {
 	w.Cl = simkit.Bootstrap(s, cluster, sc.Stores, splits)
 	switch sc.Backend {
 	case "M", "":
-		w.backend = mocktikv.NewRPCClient(cluster, mvcc, nil)
+		w.backend = mockFront{mocktikv.NewRPCClient(cluster, mvcc, nil)}
 		w.dumper = mvcc
 	default:
 		return nil, fmt.Errorf("unknown backend %q", sc.Backend)
 	}
 	w.Net = simkit.NewNet(s, w.backend)
 	w.Net.Topo = w.Cl
+	w.Net.Describe = w.Cl.Describe
 	w.Net.Jitter = time.Duration(sc.Net.JitterUs) * time.Microsecond
 	for k, f := range sc.Net.Plan {
 		w.Net.Plan[k] = f
@@ -206,6 +226,7 @@ func (w *World) runTxn(p *TxnProg, h *TxnHist) {
 	h.Buf = map[string]*string{}
 	h.Inserted = map[string]bool{}
 	h.Locked = map[string]uint64{}
+	h.InsertChecked = map[string]bool{}
 	for _, op := range p.Ops {
 		r := OpRes{Op: op, Own: copyBuf(h.Buf)}
 		r.Inv = s.Stamp()
@@ -296,6 +317,9 @@ func (w *World) runTxn(p *TxnProg, h *TxnHist) {
 			} else {
 				h.Buf[op.Keys[0]] = sp(op.Val)
 				h.Inserted[op.Keys[0]] = true
+				if !p.Pessimistic {
+					h.InsertChecked[op.Keys[0]] = true
+				}
 			}
 		case "delete":
 			if err := txn.Delete([]byte(op.Keys[0])); err != nil {
@@ -329,10 +353,19 @@ func (w *World) runTxn(p *TxnProg, h *TxnHist) {
 			err = txn.LockKeys(ctx, lctx, ks...)
 			if err != nil {
 				r.Err = classify(err)
+				// a failed LockKeys reports the failure (e.g. key-exists) to its caller and withdraws the
+				// presume-not-exists declaration of the keys of the call (txn.go lockKeys); what the
+				// program writes afterwards is an ordinary write.
+				for _, k := range op.Keys {
+					delete(h.Inserted, k)
+				}
 			} else {
 				for _, k := range op.Keys {
 					if _, ok := h.Locked[k]; !ok {
 						h.Locked[k] = forTS
+						if h.Inserted[k] && h.Buf[k] != nil {
+							h.InsertChecked[k] = true
+						}
 					}
 				}
 				if op.RetVals {
